@@ -8,8 +8,11 @@ package c06
 
 import (
 	"cmp"
+	"encoding/json"
 	"math"
 	"math/big"
+	"os"
+	"path/filepath"
 	"testing"
 
 	zed "github.com/brimdata/super"
@@ -17,6 +20,7 @@ import (
 	"github.com/brimdata/super/pkg/storage"
 	"github.com/brimdata/super/runtime/sam/expr"
 
+	"verif/gen"
 	"verif/vt"
 )
 
@@ -135,4 +139,49 @@ func typeKind(t zed.Type) string {
 		return "float"
 	}
 	return zed.PrimitiveName(t)
+}
+
+// TestMakeReplays writes the regression/known-finding replay files from literal
+// inputs into $C06_MKREPLAY (normally /verif/replays/C06).  Not part of a check.
+func TestMakeReplays(t *testing.T) {
+	dir := os.Getenv("C06_MKREPLAY")
+	if dir == "" {
+		t.Skip("C06_MKREPLAY not set")
+	}
+	write := func(name, test, sig, expect string, c any) {
+		raw, err := json.Marshal(c)
+		if err != nil {
+			t.Fatal(err)
+		}
+		rec := map[string]any{"test": test, "sig": sig, "case": json.RawMessage(raw)}
+		if expect != "" {
+			rec["expect"] = expect
+		}
+		b, _ := json.MarshalIndent(rec, "", " ")
+		if err := os.WriteFile(filepath.Join(dir, name), append(b, '\n'), 0o644); err != nil {
+			t.Fatal(err)
+		}
+	}
+	// int64 2^53, int64 2^53+1, float64 2^53: a<b, b=c, c=a
+	write("known-C06-int-float-lossy.json", "TestOrderLaws", sigLossy, "known",
+		LawsCase{NShards: 1, Vals: gen.SeqFromZSON("9007199254740992 9007199254740993 9007199254740992.")})
+	write("known-C06-int-float-lossy-uint64.json", "TestOrderLaws", sigLossy, "known",
+		LawsCase{NShards: 1, Vals: gen.SeqFromZSON("18446744073709551615(uint64) 18446744073709551614(uint64) 18446744073709551616.")})
+	// `sort a desc, b`: the null b must come last within a==1
+	write("known-C06-sort-nulls-secondary-key.json", "TestSortOp", sigNullsSecondary, "known",
+		SortCase{Seq: gen.SeqFromZSON("{a:1,b:null(int64),_o:1970-01-01T00:00:00Z} {a:1,b:5,_o:1970-01-01T00:00:00.000000001Z}"),
+			Batches: []int{2}, Keys: []KeySpec{{Field: "a", Dir: "desc"}, {Field: "b"}}})
+	// `sort k` over two record shapes, two spill runs: the spilled values are compared on field p
+	write("known-C06-spill-foreign-context.json", "TestSortOp", sigSpillCtx, "known",
+		SortCase{Seq: gen.SeqFromZSON(`{p:"y",k:5,_o:1970-01-01T00:00:00Z} {k:1,p:"z",_o:1970-01-01T00:00:00.000000001Z} {k:3,p:"a",_o:1970-01-01T00:00:00.000000002Z}`),
+			Batches: []int{2, 1}, Keys: []KeySpec{{Field: "k"}}})
+	// regression: mixed-type key column incl. uint64 > MaxInt64, nulls and missing through the native fast path and spills
+	write("regress-native-fastpath-clamp.json", "TestSortOp", "", "",
+		SortCase{Seq: gen.SeqFromZSON(`{k:18446744073709551615(uint64),_o:1970-01-01T00:00:00Z} {k:9223372036854775807,_o:1970-01-01T00:00:00.000000001Z} {k:null(int64),_o:1970-01-01T00:00:00.000000002Z} `+
+			`{k:9223372036854775808(uint64),_o:1970-01-01T00:00:00.000000003Z} {k:-9223372036854775808,_o:1970-01-01T00:00:00.000000004Z} {k:9223372036854775807,_o:1970-01-01T00:00:00.000000005Z} {_o:1970-01-01T00:00:00.000000006Z}`),
+			Batches: []int{3, 2, 2}, Keys: []KeySpec{{Field: "k"}}, Nulls: "first"})
+	write("regress-merge-ties.json", "TestMerge", "", "",
+		MergeCase{Seq: gen.SeqFromZSON(`{k:1,r:0,_o:1970-01-01T00:00:00Z} {k:2,r:0,_o:1970-01-01T00:00:00.000000001Z} {k:2,r:0,_o:1970-01-01T00:00:00.000000002Z} `+
+			`{k:2,r:1,_o:1970-01-01T00:00:00.000000003Z} {k:3,r:1,_o:1970-01-01T00:00:00.000000004Z} {k:null(int64),r:2,_o:1970-01-01T00:00:00.000000005Z} {r:2,_o:1970-01-01T00:00:00.000000006Z} {k:"a",r:2,_o:1970-01-01T00:00:00.000000007Z}`),
+			Lens: []int{3, 2, 3}, Batches: [][]int{{2, 1}, {1}, {1, 2}}, Via: "direct", NullsMax: true})
 }
